@@ -100,6 +100,7 @@ def run_case(case, tier="quick", src_root=None, findings=()):
         I = Interp(cx, loader)
         I.overflow_checks = case.overflow
         I.extra_libs = dict(case.libs)
+        I.recursive_contracts = set(case.recursive)
         f, owner, mod = resolve_target(I, case.target)
         qual = f.qualname if isinstance(f, Func) else case.target
         I.contracts[qual] = {"loops": case.loops}
